@@ -230,3 +230,42 @@ pub fn op_misc(args: &[&str]) -> String {
         _ => panic!("bad misc"),
     }
 }
+
+/// `flipz <seed> <size> <bs> <m>`: as `flipx`, on a SPARSE outboard (records with index % m == 0 are all zero: an
+/// incomplete outboard), plus a sync copy of the sparse pre-order outboard into a post-order target that already
+/// holds other records
+pub fn op_flipz(args: &[&str]) -> String {
+    let seed: u64 = args[0].parse().unwrap();
+    let size: u64 = args[1].parse().unwrap();
+    let bs = bs_of(args[2]);
+    let m: usize = args[3].parse::<usize>().unwrap().max(1);
+    let tree = BaoTree::new(size, bs);
+    let raw = crate::rng::rand_bytes(seed, tree.outboard_size() as usize + 32);
+    let root = blake3::Hash::from(<[u8; 32]>::try_from(&raw[..32]).unwrap());
+    let mut data = raw[32..].to_vec();
+    for (i, rec) in data.chunks_mut(64).enumerate() {
+        if i % m == 0 {
+            rec.fill(0);
+        }
+    }
+    let pre = PreOrderMemOutboard { root, tree, data: data.clone() };
+    let post = PostOrderMemOutboard { root, tree, data };
+    let a = pre.clone().flip();
+    let a2 = a.flip();
+    let b = post.flip();
+    let b2 = b.flip();
+    let mut target = PostOrderMemOutboard { root, tree, data: crate::rng::rand_bytes(seed + 7, tree.outboard_size() as usize) };
+    let cp = sync::copy(&pre, &mut target).map(|_| dig(&target.data)).unwrap_or_else(|e| io_err(&e));
+    format!(
+        "postMem:{}:{} preMem:{}:{} preMem:{}:{} postMem:{}:{} {}",
+        dig(a.root.as_bytes()),
+        dig(&a.data),
+        dig(a2.root.as_bytes()),
+        dig(&a2.data),
+        dig(b.root.as_bytes()),
+        dig(&b.data),
+        dig(b2.root.as_bytes()),
+        dig(&b2.data),
+        cp
+    )
+}
